@@ -123,7 +123,7 @@ fn check_case(l: &mut Local<'_>, cfg: ModeCfg, map: &Beatmap, settings: &[Settin
 }
 
 fn main() {
-    let ctx = Ctx::from_env("C02");
+    let ctx = Ctx::from_env_caps("C02", 55, 1500);
     ctx.rule(
         "case = (mode configuration, map text generated by the shape grammar); every case runs the full gradual walk for each setting of the menu and compares every value with the one-shot passed_objects(i) calculation; non-trivial = at least one compared value has stars > 0",
     );
